@@ -297,6 +297,40 @@ func Check(c *Case, r *mon.R) {
 			_ = why
 			return
 		}
+		// structure of in-lists: as many elements as were written, list by list
+		// (a list with ill-typed elements evaluates to an error whatever is
+		// dropped from it, so its length is compared directly)
+		{
+			var want, got []int
+			var walkE func(e *E)
+			walkE = func(e *E) {
+				if e.K == "in" {
+					want = append(want, len(e.Kids)-1)
+				}
+				for _, k := range e.Kids {
+					walkE(k)
+				}
+			}
+			walkE(meaning)
+			var walkX func(x *sqlmini.X)
+			walkX = func(x *sqlmini.X) {
+				if x == nil {
+					return
+				}
+				if x.K == "in" {
+					got = append(got, len(x.Kids)-1)
+				}
+				for _, k := range x.Kids {
+					walkX(k)
+				}
+				walkX(x.Filter)
+			}
+			walkX(sx2)
+			if len(want) > 0 && fmt.Sprint(want) != fmt.Sprint(got) {
+				r.Violation("", "expression at %s position of %q: the in-lists of the program have %v elements, those of the emitted SQL %v\n  SQL emitted  %s", c.Pos, src, want, got, sql)
+				return
+			}
+		}
 		for i, row := range rows {
 			env := exprpos.ToEnv(row)
 			got := sqlmini.Eval(sx2, &sqlmini.Ctx{Row: env})
@@ -550,6 +584,17 @@ func wideTyped() []posExpr {
 			in.Kids = append(in.Kids, ints[(i+1)%len(ints)])
 		}
 		out = append(out, posExpr{cat, "extend"}, posExpr{in, "where"})
+		// few distinct values repeated, as numbers and as strings of the same text
+		rep, reps := In(Name("ia")), In(Name("sa"))
+		for i := 0; i < n; i++ {
+			v := Num(fmt.Sprint(i % 4))
+			if i%3 == 2 {
+				v = StrLit(fmt.Sprint(i%4), i%2 == 0)
+			}
+			rep.Kids = append(rep.Kids, v)
+			reps.Kids = append(reps.Kids, v)
+		}
+		out = append(out, posExpr{rep, "where"}, posExpr{reps, "where"})
 		for _, op := range []string{"and", "or"} {
 			other := map[string]string{"and": "or", "or": "and"}[op]
 			e := bools[0]
